@@ -15,7 +15,7 @@ from ..infer import NODE, SLOT
 from ..model import AnalysisError, Func, iter_own, norm
 from ..pat import find, has, match, one
 from .trav import _if_chain
-from .util import cond_texts, exit_cases, find_cases, find_under, local_value, path_conds, reaching_values, split_cond, raised_class, stmt_index, stmts_before
+from .util import cond_texts, exit_cases, find_cases, find_under, local_value, path_conds, reaching_values, resolve_expr, split_cond, raised_class, stmt_index, stmts_before
 
 
 def _returns(f: Func) -> List[ast.Return]:
@@ -98,7 +98,7 @@ def exh5(ctx: Ctx) -> List[Ob]:
 
 
 # ------------------------------------------------------------- DATAID-DEF
-@rule("DATAID-DEF", ["C02", "C07"], floor=6, section="4/C02")
+@rule("DATAID-DEF", ["C02", "C05", "C07", "C11", "C12", "C14"], floor=6, section="4/C02")
 def dataid_def(ctx: Ctx) -> List[Ob]:
     """a node's data_id is the explicit id if given, else the tree's id callback applied to the data, else hash(data); calc_data_id is called only where an id has to be derived"""
     obs: List[Ob] = []
@@ -117,7 +117,9 @@ def dataid_def(ctx: Ctx) -> List[Ob]:
             return None
         a, b = rhs(derive_branch), rhs(given_branch)
         ok = a is not None and b is not None and match("$t.calc_data_id(data)", a) is not None and match("data_id", b) is not None
-    obs.append(ctx.ob("DATAID-DEF", ["C02", "C07"], f, "Node.__init__: explicit data_id wins, else tree.calc_data_id(data)", None, ok,
+    # every operation that re-creates a node under a given id passes it here: copies (C07), the diff result tree
+    # (C11, built from copies), and the three loaders (C05 C12 C14)
+    obs.append(ctx.ob("DATAID-DEF", ["C02", "C05", "C07", "C11", "C12", "C14"], f, "Node.__init__: explicit data_id wins, else tree.calc_data_id(data)", None, ok,
                       "" if ok else "the explicit id must be used as given (also 0 / ''), the derived one only when none was passed"))
     g = m.func("Tree.calc_data_id")
     stm = [s for s in g.body if not (isinstance(s, ast.Expr) and isinstance(s.value, ast.Constant))]
@@ -260,6 +262,25 @@ def kind_branch(ctx: Ctx) -> List[Ob]:
                 ok = it in (f"reversed({lst})", f"range(len({lst}) - 1, -1, -1)", f"{lst}[::-1]")
         T(f, f"{name} scans the full {'child' if 'child' in name else 'sibling'} list {'front to back' if fwd else 'back to front'}", ok,
           "the first / last node of a kind is found from the matching end, over the whole list (index 0 included)")
+    # the neighbour queries scan away from the node: the nearest sibling of the kind wins
+    for name, back in (("prev_sibling", True), ("next_sibling", False)):
+        f = m.func(f"TypedNode.{name}")
+        L = "self._parent._children"
+        lps = [n for n in iter_own(f.node) if isinstance(n, ast.For) and any(isinstance(x, ast.Return) for x in ast.walk(n))]
+        idxs = [norm(n_.targets[0]) for n_ in iter_own(f.node) if isinstance(n_, ast.Assign) and isinstance(n_.value, ast.Call) and norm(n_.value.func) in ("_index_of", f"{L}.index")
+                and isinstance(n_.targets[0], ast.Name)]
+        ok = None
+        if len(lps) == 1 and len(idxs) == 1:
+            i_ = idxs[0]
+            it = norm(resolve_expr(ctx, f, lps[0], lps[0].iter, keep=[i_])).replace(".children", "._children")
+            near_far_back = (f"range({i_} - 1, -1, -1)", f"reversed({L}[:{i_}])", f"{L}[:{i_}][::-1]", f"reversed(range({i_}))", f"reversed(range(0, {i_}))")
+            far_near_back = (f"{L}[:{i_}]", f"range({i_})", f"range(0, {i_})")
+            near_far_fwd = (f"range({i_} + 1, len({L}))", f"{L}[{i_} + 1:]", f"islice({L}, {i_} + 1, None)", f"itertools.islice({L}, {i_} + 1, None)")
+            far_near_fwd = (f"reversed({L}[{i_} + 1:])", f"range(len({L}) - 1, {i_}, -1)", f"{L}[{i_} + 1:][::-1]")
+            good, wrong = (near_far_back, far_near_back + near_far_fwd + far_near_fwd) if back else (near_far_fwd, far_near_fwd + near_far_back + far_near_back)
+            ok = True if it in good else (False if it in wrong else None)
+        T(f, f"{name} scans {'backwards' if back else 'forwards'} from the node's own position (nearest sibling of the kind first)", ok,
+          f"the scan runs over `{norm(lps[0].iter) if lps else '?'}`: it must start next to the node and move away from it, else a sibling further away is returned")
     for name in ("get_siblings", "first_sibling", "last_sibling", "prev_sibling", "next_sibling", "get_index", "is_first_sibling", "is_last_sibling"):
         f = m.func(f"TypedNode.{name}")
         d = f.param_default("any_kind")
@@ -769,6 +790,37 @@ def fs(ctx: Ctx) -> List[Ob]:
             ok = fl[1][1] == "attrgetter('name')" and dl[1][1] == "itemgetter(0)" and not_after(ctx, f, fl[0], dl[0]) and fl[0] is not dl[0] \
                 and bool(find(f"{fl[1][0]}.append($$o)", f.node)) and bool(find(f"{dl[1][0]}.append(($$c, $$o))", f.node))
     T(f, "sorted: files first (by name), then directories (by path name)", ok, "files first, name-sorted, then sub-directories, name-sorted")
+    # whatever the scan is split into: a sorted scan descends through a walker that can sort, an unsorted one through
+    # a walker that can leave the order alone (the requested order holds at every depth, not only at the top)
+    walkers = [g for g in top.nested if any(isinstance(c, ast.Call) and isinstance(c.func, ast.Attribute) and c.func.attr == "iterdir" for c in ast.walk(g.node))]
+
+    def mode(g) -> str:
+        if any(isinstance(x, ast.Name) and x.id == "sort" and isinstance(x.ctx, ast.Load) for x in ast.walk(g.node)):
+            return "both"
+        if any(isinstance(c, ast.Call) and (norm(c.func) == "sorted" or (isinstance(c.func, ast.Attribute) and c.func.attr == "sort")) for c in ast.walk(g.node)):
+            return "sorted"
+        return "unsorted"
+
+    ok = None
+    why_w = ""
+    for h in [top] + list(top.nested):
+        for c in iter_own(h.node):
+            if not (isinstance(c, ast.Call) and isinstance(c.func, ast.Name)):
+                continue
+            tg = [g for g in walkers if g.name == c.func.id]
+            if not tg:
+                continue
+            ts = cond_texts(path_conds(ctx, h, c))
+            want_mode = "sorted" if "sort" in ts else ("unsorted" if "not sort" in ts else (mode(h) if h is not top and mode(h) != "both" else None))
+            if want_mode is None:
+                continue
+            got = mode(tg[0])
+            if got not in ("both", want_mode):
+                ok = False
+                why_w = f"`{norm(c)}` in the {want_mode} scan descends through `{tg[0].name}`, which only scans {got}: below the first level the entries come in the other order"
+            elif ok is None:
+                ok = True
+    T(top, "a sorted scan recurses into a sorted scan, an unsorted one into an unsorted one", ok, why_w)
     e = one("$t = FileSystemTree(str(path))", top.node)
     ok = None
     if e is not None:
@@ -927,6 +979,14 @@ def gen(ctx: Ctx) -> List[Ob]:
                 fmt_ok = "macros" in tf and f"isinstance({subj}, str)" in tf and not any("Randomizer" in t_ for t_ in tf) and norm(fv) == f"{subj}.format(**macros)" \
                     and subj == gname and not_after(ctx, f, gens_[0], fmts[0][0])
                 ok = skip_ok and fmt_ok
+    if ok is None and len(gens_) == 1:
+        # witnessed wrong value, whatever the removal idiom: a macro expansion that is only reached when the
+        # value is *not* a Randomizer leaves generated strings unexpanded
+        for n_, e_ in find(f"{d}[$$k] = $$v", f.node):
+            v_ = e_["$$v"]
+            if isinstance(v_, ast.Call) and isinstance(v_.func, ast.Attribute) and v_.func.attr == "format":
+                if any("Randomizer" in t_ and t_.startswith("not ") for t_ in cond_texts(path_conds(ctx, f, n_))):
+                    ok = False
     T(f, "randomizers are resolved, only None results are skipped (0/False/'' are values), every string value (literal or generated) is macro-expanded", ok,
       "a legal falsy random value must not be dropped; the macro expansion is a separate step after the randomizer was resolved")
     f = m.func("_make_tree")
